@@ -454,3 +454,343 @@ Example checker_sound_premises :
   quiescent s 1 /\ trace_safe 1 s t = true /\ no_leftovers [1] s t = true /\
   all_versions s t 1 = [Some [1; 2]; Some [3; 4]; Some [5; 6; 7]].
 Proof. cbn zeta. split; [apply boot_quiescent|]. vm_compute. auto. Qed.
+
+(** ** Files that [dst] names or ever named are immutable; the path exists at
+    every instant *)
+
+Lemma file_eta f : f_pend f = [] -> {| f_dur := f_cur f; f_pend := [] |} = f.
+Proof. destruct f as [d p]; cbn. intros ->. reflexivity. Qed.
+
+Lemma file_of_add_pend_other s dst j p i :
+  ever_at s dst j = false -> ever_at s dst i = true ->
+  file_of (add_pend s j p) i = file_of s i.
+Proof.
+  intros Hj Hi. rewrite file_of_add_pend.
+  destruct (N.eqb_spec i j) as [->|]; [congruence|reflexivity].
+Qed.
+
+(** What [step_ok] buys, stated on the semantics and not on the shape of the
+    operation: whatever an accepted operation is, it leaves every file that
+    [dst] names or ever named exactly as it was (content, durable content,
+    pending list).  Identity is the inode, not the path: the file is protected
+    through any name and any descriptor, also one opened before it was
+    published. *)
+Lemma step_keeps_files s o dst i :
+  step_ok dst s o = true -> ever_at s dst i = true -> f_pend (file_of s i) = [] ->
+  file_of (step s o) i = file_of s i.
+Proof.
+  intros Hok Hi Hp.
+  destruct o as [fd p fl|fd d|fd off d|fd|fd|a b|p|fd n|p n]; cbn [step step_ok] in *.
+  - destruct (aget (dir_cur s) p) as [j|] eqn:E.
+    + destruct (o_creat fl && o_excl fl); [reflexivity|].
+      change (file_of (set_fd ?a ?b ?c) i) with (file_of a i).
+      destruct (o_trunc fl) eqn:Et; [|reflexivity].
+      apply (file_of_add_pend_other s dst); [|exact Hi].
+      destruct (ever_at s dst j); [|reflexivity].
+      rewrite orb_true_r in Hok. discriminate.
+    + destruct (o_creat fl); reflexivity.
+  - unfold fd_target_ok in Hok. destruct (aget (fds s) fd) as [e|]; [|reflexivity].
+    destruct (fd_wr e); [|reflexivity].
+    change (file_of (set_fd ?a ?b ?c) i) with (file_of a i).
+    apply (file_of_add_pend_other s dst); [|exact Hi]. now destruct (ever_at s dst (fd_ino e)).
+  - unfold fd_target_ok in Hok. destruct (aget (fds s) fd) as [e|]; [|reflexivity].
+    destruct (fd_wr e); [|reflexivity].
+    apply (file_of_add_pend_other s dst); [|exact Hi]. now destruct (ever_at s dst (fd_ino e)).
+  - destruct (aget (fds s) fd) as [e|]; [|reflexivity].
+    rewrite file_of_set_file. destruct (N.eqb_spec i (fd_ino e)) as [<-|]; [|reflexivity].
+    apply file_eta, Hp.
+  - reflexivity.
+  - destruct (aget (dir_cur s) a); reflexivity.
+  - destruct (aget (dir_cur s) p); reflexivity.
+  - unfold fd_target_ok in Hok. destruct (aget (fds s) fd) as [e|]; [|reflexivity].
+    destruct (fd_wr e); [|reflexivity].
+    apply (file_of_add_pend_other s dst); [|exact Hi]. now destruct (ever_at s dst (fd_ino e)).
+  - destruct (aget (dir_cur s) p) as [j|]; [|reflexivity].
+    apply (file_of_add_pend_other s dst); [|exact Hi]. now destruct (ever_at s dst j).
+Qed.
+
+(** What [dst] names after an accepted operation: the same file, or the file
+    just renamed onto it.  Never nothing once it named something. *)
+Lemma step_dir_dst s o dst :
+  step_ok dst s o = true ->
+  aget (dir_cur (step s o)) dst =
+  match o with
+  | Rename a b =>
+      if b =? dst then match aget (dir_cur s) a with Some i => Some i | None => aget (dir_cur s) dst end
+      else aget (dir_cur s) dst
+  | _ => aget (dir_cur s) dst
+  end.
+Proof.
+  intros Hok.
+  destruct o as [fd p fl|fd d|fd off d|fd|fd|a b|p|fd n|p n]; cbn [step step_ok] in *.
+  - destruct (aget (dir_cur s) p) as [j|] eqn:E.
+    + destruct (o_creat fl && o_excl fl); [reflexivity|]. destruct (o_trunc fl); reflexivity.
+    + destruct (o_creat fl) eqn:Ec; [|reflexivity]. cbn [dir_cur set_fd set_dir].
+      rewrite aget_aset. destruct (N.eqb_spec dst p) as [->|]; [|reflexivity].
+      rewrite N.eqb_refl in Hok. discriminate.
+  - destruct (aget (fds s) fd) as [e|]; [|reflexivity]. destruct (fd_wr e); reflexivity.
+  - destruct (aget (fds s) fd) as [e|]; [|reflexivity]. destruct (fd_wr e); reflexivity.
+  - destruct (aget (fds s) fd) as [e|]; reflexivity.
+  - reflexivity.
+  - apply andb_prop in Hok. destruct Hok as [Ha _]. apply negb_true_iff, N.eqb_neq in Ha.
+    destruct (aget (dir_cur s) a) as [i|] eqn:E.
+    + cbn [dir_cur set_dir]. rewrite aget_aset, aget_adel, (N.eqb_sym dst b).
+      destruct (b =? dst); [reflexivity|]. destruct (N.eqb_spec dst a); [congruence|reflexivity].
+    + destruct (b =? dst); reflexivity.
+  - apply negb_true_iff, N.eqb_neq in Hok.
+    destruct (aget (dir_cur s) p) as [i|]; [|reflexivity].
+    cbn [dir_cur set_dir]. rewrite aget_adel. destruct (N.eqb_spec dst p); [congruence|reflexivity].
+  - destruct (aget (fds s) fd) as [e|]; [|reflexivity]. destruct (fd_wr e); reflexivity.
+  - destruct (aget (dir_cur s) p) as [j|]; reflexivity.
+Qed.
+
+Lemma ever_at_cur s dst i : aget (dir_cur s) dst = Some i -> ever_at s dst i = true.
+Proof. intros E. apply ever_at_spec. exists (dir_cur s). split; [left; reflexivity|exact E]. Qed.
+
+(** After an accepted operation a reader finds at [dst] what it found before,
+    or the version the operation published. *)
+Lemma step_live s o dst vs :
+  inv s dst vs -> step_ok dst s o = true ->
+  live_view (step s o) dst = last (live_view s dst :: published s o dst) None.
+Proof.
+  intros [Hc _] Hok.
+  assert (Hsame : aget (dir_cur (step s o)) dst = aget (dir_cur s) dst ->
+                  live_view (step s o) dst = live_view s dst).
+  { intros E. unfold live_view, view. rewrite E.
+    destruct (aget (dir_cur s) dst) as [i|] eqn:Ei; [|reflexivity].
+    rewrite (step_keeps_files s o dst i Hok (ever_at_cur _ _ _ Ei)); [reflexivity|].
+    apply (Hc (dir_cur s) i); [left; reflexivity|exact Ei]. }
+  pose proof (step_dir_dst s o dst Hok) as Hd.
+  destruct o as [fd p fl|fd d|fd off d|fd|fd|a b|p|fd n|p n]; cbn [published last];
+    try (apply Hsame; exact Hd).
+  destruct (b =? dst) eqn:Eb; [|apply Hsame; exact Hd].
+  destruct (aget (dir_cur s) a) as [i|] eqn:Ea; [|apply Hsame; exact Hd].
+  cbn [last]. unfold live_view, view. rewrite Hd, Ea. cbn [step]. rewrite Ea. reflexivity.
+Qed.
+
+Lemma last_app_nonempty {A} (l p : list A) d : p <> [] -> last (l ++ p) d = last p d.
+Proof.
+  intros Hp. induction l as [|x l IH]; [reflexivity|].
+  cbn [app]. rewrite <- IH. cbn [last]. destruct (l ++ p) eqn:E; [|reflexivity].
+  apply app_eq_nil in E. destruct E. congruence.
+Qed.
+
+Lemma last_app_cons {A} (l p : list A) d : l <> [] -> last (l ++ p) d = last (last l d :: p) d.
+Proof.
+  intros Hl. destruct p as [|x p].
+  - rewrite app_nil_r. reflexivity.
+  - rewrite last_app_nonempty by discriminate. reflexivity.
+Qed.
+
+Lemma last_in {A} (l : list A) d : l <> [] -> In (last l d) l.
+Proof.
+  induction l as [|x l IH]; [congruence|]. intros _. destruct l as [|y l]; [left; reflexivity|].
+  right. apply IH. discriminate.
+Qed.
+
+Lemma run_cons s o t : run s (o :: t) = run (step s o) t.
+Proof. reflexivity. Qed.
+
+Lemma run_inv t : forall s dst vs,
+  inv s dst vs -> trace_safe dst s t = true -> inv (run s t) dst (vs ++ versions s t dst).
+Proof.
+  induction t as [|o t IH]; intros s dst vs H Hs; cbn [versions trace_safe] in *.
+  - rewrite app_nil_r. exact H.
+  - apply andb_prop in Hs. destruct Hs as [Ho Hs]. rewrite run_cons, app_assoc.
+    apply IH; [apply step_inv; assumption|exact Hs].
+Qed.
+
+Lemma trace_live t : forall s dst vs,
+  inv s dst vs -> vs <> [] -> live_view s dst = last vs None ->
+  trace_safe dst s t = true ->
+  live_view (run s t) dst = last (vs ++ versions s t dst) None.
+Proof.
+  induction t as [|o t IH]; intros s dst vs H Hne Hl Hs; cbn [versions trace_safe] in *.
+  - rewrite app_nil_r. exact Hl.
+  - apply andb_prop in Hs. destruct Hs as [Ho Hs]. rewrite run_cons, app_assoc.
+    apply IH; [apply step_inv; assumption| | |exact Hs].
+    + intros E. apply app_eq_nil in E. destruct E. congruence.
+    + rewrite (step_live s o dst vs H Ho), Hl. symmetry. apply last_app_cons, Hne.
+Qed.
+
+(** At every instant of an accepted trace a reader finds at [dst] exactly the
+    LATEST published version: versions are never mixed, never go back, and the
+    path never stops naming a complete file. *)
+Theorem live_tracks_versions dst s t1 t2 :
+  quiescent s dst -> trace_safe dst s (t1 ++ t2) = true ->
+  live_view (run s t1) dst = last (all_versions s t1 dst) None.
+Proof.
+  intros Hq Hs. rewrite trace_safe_app in Hs. apply andb_prop in Hs. destruct Hs as [Hs _].
+  unfold all_versions. change (live_view s dst :: versions s t1 dst) with ([live_view s dst] ++ versions s t1 dst).
+  apply trace_live; [apply quiescent_inv, Hq|discriminate|reflexivity|exact Hs].
+Qed.
+
+(** Every published version is a file, not "nothing". *)
+Lemma versions_some t : forall s dst v, In v (versions s t dst) -> v <> None.
+Proof.
+  induction t as [|o t IH]; intros s dst v Hv; cbn [versions] in Hv; [destruct Hv|].
+  apply in_app_or in Hv. destruct Hv as [Hv|Hv]; [|eapply IH; eauto].
+  destruct o; cbn [published] in Hv; try destruct Hv.
+  destruct (b =? dst); [|destruct Hv].
+  destruct (aget (dir_cur s) a) as [i|] eqn:E; [|destruct Hv].
+  destruct Hv as [<-|[]]. unfold live_view, view. rewrite E. discriminate.
+Qed.
+
+(** If [dst] exists at the start of an accepted trace, "no file at dst" is
+    never visible: not at any instant, not after a crash at any prefix. *)
+Theorem never_absent dst s t :
+  quiescent s dst -> trace_safe dst s t = true -> live_view s dst <> None ->
+  forall v, In v (visible_states s t dst) -> v <> None.
+Proof.
+  intros Hq Hs H0 v Hv. apply (checker_sound dst s t Hq Hs) in Hv.
+  destruct Hv as [<-|Hv]; [exact H0|]. eapply versions_some; eauto.
+Qed.
+
+(** If [dst] did not exist at the start: from the first publication on a
+    reader always finds a file. *)
+Theorem exists_after_publish dst s t1 t2 :
+  quiescent s dst -> trace_safe dst s (t1 ++ t2) = true -> versions s t1 dst <> [] ->
+  live_view (run s t1) dst <> None.
+Proof.
+  intros Hq Hs Hv. rewrite (live_tracks_versions dst s t1 t2 Hq Hs). unfold all_versions.
+  change (live_view s dst :: versions s t1 dst) with ([live_view s dst] ++ versions s t1 dst).
+  rewrite last_app_nonempty by exact Hv.
+  apply (versions_some t1 s dst). apply last_in, Hv.
+Qed.
+
+(** The cheap existence pass evaluated on the recorded traces is implied. *)
+Theorem trace_safe_dst_stays dst t : forall s, trace_safe dst s t = true -> dst_stays dst s t = true.
+Proof.
+  induction t as [|o t IH]; intros s Hs; cbn [trace_safe dst_stays] in *; [reflexivity|].
+  apply andb_prop in Hs. destruct Hs as [Ho Hs]. rewrite (IH _ Hs), andb_true_r.
+  rewrite (step_dir_dst s o dst Ho).
+  destruct (aget (dir_cur s) dst) as [i|]; [|reflexivity].
+  destruct o; try reflexivity.
+  destruct (b =? dst); [|reflexivity]. destruct (aget (dir_cur s) a); reflexivity.
+Qed.
+
+(** Renaming [dst] away or unlinking it is rejected wherever it occurs. *)
+Theorem rename_away_rejected dst s t1 b t2 : trace_safe dst s (t1 ++ Rename dst b :: t2) = false.
+Proof.
+  rewrite trace_safe_app. cbn [trace_safe step_ok]. rewrite N.eqb_refl. cbn [negb andb].
+  apply andb_false_r.
+Qed.
+
+Theorem unlink_dst_rejected dst s t1 t2 : trace_safe dst s (t1 ++ Unlink dst :: t2) = false.
+Proof.
+  rewrite trace_safe_app. cbn [trace_safe step_ok]. rewrite N.eqb_refl. cbn [negb andb].
+  apply andb_false_r.
+Qed.
+
+(** ... and for a reason: with "keep a backup first" the path is empty in
+    between, live and after a crash. *)
+Lemma rename_away_unsafe :
+  exists old new,
+    let s := boot [(1, old)] in
+    let t := backup_shape 3 9 2 1 [new] in
+    quiescent s 1 /\ live_view s 1 = Some old /\
+    trace_safe 1 s t = false /\ dst_stays 1 s t = false /\
+    In None (live_states s t 1) /\ In None (visible_states s t 1).
+Proof.
+  exists [1;2;3], [4;5;6]. cbn zeta. split; [apply boot_quiescent|].
+  split; [reflexivity|]. split; [vm_compute; reflexivity|]. split; [vm_compute; reflexivity|].
+  split; vm_compute; tauto.
+Qed.
+
+Lemma unlink_first_unsafe :
+  exists old new,
+    let s := boot [(1, old)] in
+    let t := Unlink 1 :: atomic_shape 3 2 1 [new] in
+    quiescent s 1 /\ trace_safe 1 s t = false /\ In None (visible_states s t 1).
+Proof.
+  exists [1;2;3], [4;5;6]. cbn zeta. split; [apply boot_quiescent|].
+  split; [vm_compute; reflexivity|]. vm_compute; tauto.
+Qed.
+
+(** ** Concurrent saves: inode identity *)
+
+(** Along an accepted trace a file is frozen from the moment [dst] names it:
+    no later operation of any thread, through any path or descriptor, changes
+    it. *)
+Theorem published_files_immutable dst s t1 o t2 i :
+  quiescent s dst -> trace_safe dst s (t1 ++ o :: t2) = true ->
+  ever_at (run s t1) dst i = true ->
+  file_of (step (run s t1) o) i = file_of (run s t1) i.
+Proof.
+  intros Hq Hs Hi. rewrite trace_safe_app in Hs. apply andb_prop in Hs. destruct Hs as [H1 H2].
+  cbn [trace_safe] in H2. apply andb_prop in H2. destruct H2 as [Ho _].
+  destruct (run_inv t1 s dst _ (quiescent_inv s dst Hq) H1) as [Hc _].
+  apply (step_keeps_files _ o dst i Ho Hi).
+  apply ever_at_spec in Hi. destruct Hi as (d & Hd & E). exact (Hc d i Hd E).
+Qed.
+
+(** The two ways a second save gets at the file of the first: opening the
+    name it still has (or has again) with a writing flag, and writing through
+    a descriptor opened before the file was published.  Both are rejected
+    whatever the path is. *)
+Theorem open_published_for_write_rejected dst s fd p fl i t :
+  aget (dir_cur s) p = Some i -> ever_at s dst i = true ->
+  o_wr fl || o_trunc fl || o_app fl = true ->
+  trace_safe dst s (Open fd p fl :: t) = false.
+Proof. intros E Hi Hf. cbn [trace_safe step_ok]. rewrite E, Hi, Hf. reflexivity. Qed.
+
+Theorem write_published_rejected dst s fd e d t :
+  aget (fds s) fd = Some e -> ever_at s dst (fd_ino e) = true ->
+  trace_safe dst s (Write fd d :: t) = false.
+Proof. intros E Hi. cbn [trace_safe step_ok]. unfold fd_target_ok. rewrite E, Hi. reflexivity. Qed.
+
+(** A file that still has a truncation or write after its last fsync (made by
+    anybody) cannot be published. *)
+Theorem rename_unsynced_rejected dst s a i t :
+  a <> dst -> aget (dir_cur s) a = Some i -> f_pend (file_of s i) <> [] ->
+  trace_safe dst s (Rename a dst :: t) = false.
+Proof.
+  intros Ha E Hp. cbn [trace_safe step_ok]. rewrite E, N.eqb_refl. unfold synced.
+  destruct (f_pend (file_of s i)); [congruence|]. apply N.eqb_neq in Ha. rewrite Ha. reflexivity.
+Qed.
+
+(** The fixed temporary name: one save at a time is fine (also repeatedly),
+    two overlapping saves are not: the second open truncates the file the
+    first is about to publish, and the second save then writes into the file
+    that [dst] names.  A reader sees an empty file and a half-written one. *)
+Lemma shared_tmp_overlap_unsafe :
+  exists old a b t,
+    let s := boot [(1, old)] in
+    let tA := fixed_tmp_shape 3 2 1 [a] in
+    let tB := fixed_tmp_shape 4 2 1 [b] in
+    quiescent s 1 /\
+    trace_safe 1 s (tA ++ tB) = true /\
+    all_versions s (tA ++ tB) 1 = [Some old; Some a; Some b] /\
+    In t (interleavings tA tB) /\
+    trace_safe 1 s t = false /\
+    exists v, In v (live_states s t 1) /\ v <> Some old /\ v <> Some a /\ v <> Some b.
+Proof.
+  exists [1;2;3], [4;5;6], [7;8;9;10].
+  exists [Open 3 2 fl_trunc; Write 3 [4;5;6]; Fsync 3; Close 3;
+          Open 4 2 fl_trunc;
+          Rename 2 1;
+          Write 4 [7;8;9;10]; Fsync 4; Close 4; Rename 2 1].
+  cbn zeta. split; [apply boot_quiescent|].
+  split; [vm_compute; reflexivity|]. split; [vm_compute; reflexivity|].
+  split. { vm_compute. repeat (first [left; reflexivity | right]). }
+  split; [vm_compute; reflexivity|].
+  exists (Some []). split; [vm_compute; tauto|]. repeat split; discriminate.
+Qed.
+
+(** With a temporary name (and descriptor) of its own per save, every
+    interleaving of two saves is accepted and publishes the two complete
+    versions, in one order or the other.  (An instance, evaluated; the general
+    statement over all traces is [published_files_immutable] together with
+    [checker_sound].) *)
+Example own_tmp_interleavings_safe :
+  let s := boot [(1, [1;2;3])] in
+  let tA := atomic_shape 3 2 1 [[4]; [5;6]] in
+  let tB := atomic_shape 4 5 1 [[7;8]; [9]] in
+  length (interleavings tA tB) = 924%nat /\
+  forallb (fun t => trace_safe 1 s t && no_leftovers [1] s t &&
+                    match all_versions s t 1 with
+                    | [Some [1;2;3]; Some [4;5;6]; Some [7;8;9]] => true
+                    | [Some [1;2;3]; Some [7;8;9]; Some [4;5;6]] => true
+                    | _ => false
+                    end) (interleavings tA tB) = true.
+Proof. cbn zeta. split; vm_compute; reflexivity. Qed.
